@@ -219,6 +219,16 @@ Proof.
   + apply Hall. apply in_map_iff. exists i. split; auto. apply in_seq. lia.
 Qed.
 
+(* NB: arithmetic goals must not mention (mloadw m a) directly: lia's reflexive checker would start computing it *)
+Lemma in_type_darr_map t bd (f : nat -> val) (k : Z) :
+  in_type (TDArr t bd) (VList (map f (seq 0 (Z.to_nat k)))) = true ->
+  Z.of_nat (Z.to_nat k) <= bd /\ forall i, (i < Z.to_nat k)%nat -> in_type t (f i) = true.
+Proof.
+  intro Hin. cbn [in_type] in Hin. apply andb_prop in Hin as [Hl Hall]. rewrite forallb_forall in Hall.
+  unfold zlen in Hl. rewrite map_length, seq_length in Hl. split. lia.
+  intros i Hi. apply Hall. apply in_map_iff. exists i. split; auto. apply in_seq. lia.
+Qed.
+
 Lemma VE_darr t bd : VE t -> VE (TDArr t bd).
 Proof.
   intros IHt Hw m1 m2 a1 a2 Hag Hin. cbn [wf_ty] in Hw. apply andb_prop in Hw as [Hn Hwt].
@@ -226,11 +236,10 @@ Proof.
   rewrite vmem_darr in Hag. rewrite !vyread_darr in *.
   assert (E : mloadw m2 a2 = mloadw m1 a1).
   { apply mloadw_pt. intros i Hi. symmetry. apply Hag. assert (0 <= bd * vmem_size t) by (apply Z.mul_nonneg_nonneg; lia). lia. }
-  rewrite E. cbn [in_type] in Hin. apply andb_prop in Hin as [Hl Hall]. rewrite forallb_forall in Hall.
-  unfold zlen in Hl. rewrite map_length, seq_length in Hl.
+  rewrite E. clear E. apply in_type_darr_map in Hin as [Hlen Hall].
+  generalize dependent (mloadw m1 a1). intros k Hlen Hall.
   f_equal. apply map_seq_ext. intros i Hi. apply IHt; auto.
-  + apply (agree_elem m1 m2 a1 a2 bd (vmem_size t) (Z.of_nat i) 32); auto; lia.
-  + apply Hall. apply in_map_iff. exists i. split; auto. apply in_seq. lia.
+  apply (agree_elem m1 m2 a1 a2 bd (vmem_size t) (Z.of_nat i) 32); auto; lia.
 Qed.
 
 Theorem vyread_ext : forall t, VE t.
@@ -249,4 +258,360 @@ Proof.
   - now apply VE_darr.
   - intros Hw m1 m2 a1 a2 Hag Hin. cbn [vyread]. f_equal. cbn [in_type] in Hin. cbn [wf_ty] in Hw.
     apply tuple_go_ext; auto.
+Qed.
+
+(* ---------- widening preserves well-typedness ---------- *)
+Lemma in_type_widen : forall ts td v, compat ts td = true -> in_type ts v = true -> in_type td v = true.
+Proof.
+  induction ts using ty_ind'; intros td v Hc Hin;
+    try (cbn [compat] in Hc; apply ty_eqb_eq in Hc; subst td; exact Hin).
+  - destruct td; cbn [compat] in Hc; try discriminate. destruct v; cbn [in_type] in *; try discriminate.
+    apply andb_prop in Hin as [H1 H2]. rewrite H2, andb_true_r. lia.
+  - destruct td; cbn [compat] in Hc; try discriminate. destruct v; cbn [in_type] in *; try discriminate.
+    apply andb_prop in Hin as [H1 H2]. rewrite H2, andb_true_r. lia.
+  - destruct td; cbn [compat] in Hc; try discriminate. apply andb_prop in Hc as [Hn Hc].
+    destruct v as [| |vs]; cbn [in_type] in *; try discriminate. apply andb_prop in Hin as [H1 H2].
+    apply andb_true_intro. split. lia. rewrite forallb_forall in *. intros x Hx. apply (IHts td x Hc). auto.
+  - destruct td; cbn [compat] in Hc; try discriminate. apply andb_prop in Hc as [Hn Hc].
+    destruct v as [| |vs]; cbn [in_type] in *; try discriminate. apply andb_prop in Hin as [H1 H2].
+    apply andb_true_intro. split. lia. rewrite forallb_forall in *. intros x Hx. apply (IHts td x Hc). auto.
+  - destruct td as [| | | | | | | | | | |ds]; cbn [compat] in Hc; try discriminate.
+    destruct v as [| |vs]; cbn [in_type] in *; try discriminate.
+    revert ds vs Hc Hin. induction H as [|s l Hs Hl IH]; intros [|d ds] [|x vs] Hc Hin; cbn [map zip_all] in *;
+      try discriminate; auto.
+    apply andb_prop in Hc as [Hc1 Hc2]. apply andb_prop in Hin as [Hi1 Hi2].
+    rewrite (Hs d x Hc1 Hi1). cbn [andb]. apply IH; auto.
+Qed.
+
+(* ---------- the normalisation yields the declared layout ---------- *)
+Definition sep (src ls dst ld : Z) : Prop := src + ls <= dst \/ dst + ld <= src.
+
+Definition NC (ts : ty) : Prop :=
+  forall td v m src dst, wf_ty ts = true -> wf_ty td = true -> compat ts td = true -> in_type ts v = true ->
+    vyread ts m src = v -> mem_ok m -> sep src (vmem_size ts) dst (vmem_size td) ->
+    exists m', norm ts td m src dst = Some m' /\ vyread td m' dst = v /\ mem_ok m' /\
+               (forall a, a < dst \/ dst + vmem_size td <= a -> m' a = m a).
+
+Lemma agree_refl_on (m1 m2 : mem) a n : (forall x, a <= x < a + n -> m1 x = m2 x) -> agree m1 m2 a a n.
+Proof. intros H i Hi. apply H. lia. Qed.
+
+Lemma loop_ok s d : NC s -> wf_ty s = true -> wf_ty d = true -> compat s d = true ->
+  forall (vals : Z -> val) (N : Z) src dst,
+    sep src (N * vmem_size s) dst (N * vmem_size d) ->
+  forall k i m, 0 <= i -> i + Z.of_nat k <= N ->
+    (forall j, i <= j < i + Z.of_nat k -> in_type s (vals j) = true /\ vyread s m (src + j * vmem_size s) = vals j) ->
+    mem_ok m ->
+    exists m', norm_loop (norm s d) k i (vmem_size s) (vmem_size d) m src dst = Some m' /\
+               (forall j, i <= j < i + Z.of_nat k -> vyread d m' (dst + j * vmem_size d) = vals j) /\ mem_ok m' /\
+               (forall a, a < dst + i * vmem_size d \/ dst + (i + Z.of_nat k) * vmem_size d <= a -> m' a = m a).
+Proof.
+  intros HNC Hws Hwd Hc vals N src dst Hsep.
+  pose proof (vmem_nonneg s Hws) as Hs0. pose proof (vmem_nonneg d Hwd) as Hd0.
+  set (ss := vmem_size s) in *. set (sd := vmem_size d) in *.
+  induction k; intros i m Hi HN Hv Hok.
+  - cbn [norm_loop]. exists m. split; [reflexivity|]. split; [intros j Hj; lia|]. split; auto.
+  - cbn [norm_loop].
+    destruct (Hv i ltac:(lia)) as [Hin_i Hrd_i].
+    assert (Hsep_i : sep (src + i * ss) ss (dst + i * sd) sd) by (unfold sep in *; nia).
+    destruct (HNC d (vals i) m (src + i * ss) (dst + i * sd) Hws Hwd Hc Hin_i Hrd_i Hok Hsep_i) as (m1 & Hn1 & Hr1 & Hok1 & Hf1).
+    fold ss sd in Hn1, Hf1. rewrite Hn1.
+    assert (Hv1 : forall j, i + 1 <= j < i + 1 + Z.of_nat k ->
+                            in_type s (vals j) = true /\ vyread s m1 (src + j * ss) = vals j).
+    { intros j Hj. destruct (Hv j ltac:(lia)) as [Hin_j Hrd_j]. split; auto.
+      rewrite <- Hrd_j. apply (vyread_ext s Hws m m1). 2:{ rewrite Hrd_j. exact Hin_j. }
+      apply agree_refl_on. intros x Hx. symmetry. apply Hf1. fold ss in Hx. unfold sep in Hsep. nia. }
+    destruct (IHk (i + 1) m1 ltac:(lia) ltac:(lia) Hv1 Hok1) as (m' & Hn' & Hr' & Hok' & Hf').
+    exists m'. split; [exact Hn'|]. split; [|split; [exact Hok'|]].
+    + intros j Hj. destruct (Z.eq_dec j i) as [->|Hne].
+      * rewrite <- Hr1. apply (vyread_ext d Hwd m1 m').
+        2:{ rewrite Hr1. apply (in_type_widen s d); auto. }
+        apply agree_refl_on. intros x Hx. symmetry. apply Hf'. fold sd in Hx. nia.
+      * apply Hr'. lia.
+    + intros a Ha. rewrite Hf' by nia. apply Hf1. nia.
+Qed.
+
+Lemma mloadw_mstorew m d w : 0 <= w < W256 -> mloadw (mstorew m d w) d = w.
+Proof.
+  intro Hw. unfold mloadw, mstorew.
+  pose proof (mread_mwrite m d (word w)) as X. pose proof (zlen_word w) as L. unfold zlen in L.
+  replace (length (word w)) with 32%nat in X by lia. rewrite X, unbe_word. apply Z.mod_small. lia.
+Qed.
+
+Lemma compat_static : forall s d, compat s d = true -> is_dynamic d = false -> s = d.
+Proof.
+  induction s using ty_ind'; intros d Hc Hd;
+    try (cbn [compat] in Hc; now apply ty_eqb_eq in Hc).
+  - destruct d; cbn [compat] in Hc; discriminate.
+  - destruct d; cbn [compat] in Hc; discriminate.
+  - destruct d; cbn [compat] in Hc; try discriminate. apply andb_prop in Hc as [Hn Hc]. cbn [is_dynamic] in Hd.
+    f_equal. now apply IHs. lia.
+  - destruct d; cbn [compat] in Hc; discriminate.
+  - destruct d as [| | | | | | | | | | |ds]; cbn [compat] in Hc; try discriminate. cbn [is_dynamic] in Hd. f_equal.
+    revert ds Hc Hd. induction H as [|x l Hx Hl IH]; intros [|y ds] Hc Hd; try discriminate; auto.
+    apply andb_prop in Hc as [Hc1 Hc2]. cbn [existsb] in Hd. apply orb_false_elim in Hd as [Hd1 Hd2].
+    rewrite (Hx y Hc1 Hd1), (IH ds Hc2 Hd2). reflexivity.
+Qed.
+
+(* a plain translation copy of a whole value *)
+Lemma NC_by_agree t v (m m' : mem) src dst :
+  wf_ty t = true -> in_type t v = true -> vyread t m src = v -> agree m m' src dst (vmem_size t) ->
+  vyread t m' dst = v.
+Proof.
+  intros Hw Hin Hr Hag. rewrite <- Hr. apply (vyread_ext t Hw m m' src dst Hag). now rewrite Hr.
+Qed.
+
+Lemma NC_word t : (forall td m src dst, norm t td m src dst = Some (mstorew m dst (mloadw m src))) ->
+  (forall td, compat t td = ty_eqb t td) -> vmem_size t = 32 -> NC t.
+Proof.
+  intros Hn Hcm Hs td v m src dst Hws Hwd Hc Hin Hr Hok Hsep.
+  rewrite Hcm in Hc. apply ty_eqb_eq in Hc. subst td. rewrite Hn, Hs in *.
+  exists (mstorew m dst (mloadw m src)). split; [reflexivity|]. split; [|split].
+  - apply (NC_by_agree t v m _ src dst Hws Hin Hr). rewrite Hs. intros i Hi.
+    rewrite mstorew_mloadw_at by (auto; lia). f_equal. lia.
+  - now apply mstorew_ok.
+  - intros a Ha. apply mstorew_out. lia.
+Qed.
+
+Lemma bytes_copy_ok (m : mem) src dst L : 0 <= L ->
+  let m' := mcopy m dst src (32 + ceil32 L) in
+  mloadw m' dst = mloadw m src /\ mread m' (dst + 32) (Z.to_nat L) = mread m (src + 32) (Z.to_nat L).
+Proof.
+  intros HL m'. pose proof (ceil32_ge L) as Hg. split.
+  - apply mloadw_pt. intros i Hi. unfold m'. rewrite mcopy_at by lia. f_equal. lia.
+  - apply mread_pt. intros i Hi. unfold m'. rewrite mcopy_at by lia. f_equal. lia.
+Qed.
+
+Lemma NC_bytes_like ts :
+  (forall m a, vyread ts m a = VBytes (mread m (a + 32) (Z.to_nat (mloadw m a)))) ->
+  forall bs, vmem_size ts = 32 + ceil32 bs -> (forall d, in_type ts (VBytes d) = true -> zlen d <= bs) ->
+  (forall td, compat ts td = true -> exists bd, bs <= bd /\ vmem_size td = 32 + ceil32 bd /\
+        (forall m a, vyread td m a = VBytes (mread m (a + 32) (Z.to_nat (mloadw m a)))) /\
+        (forall m src dst, norm ts td m src dst = Some (mcopy m dst src (32 + ceil32 (mloadw m src))))) ->
+  NC ts.
+Proof.
+  intros Hrd bs Hsz Hb Htd td v m src dst Hws Hwd Hc Hin Hr Hok Hsep.
+  destruct (Htd td Hc) as (bd & Hle & Hszd & Hrdd & Hnorm). rewrite Hnorm, Hszd in *. rewrite Hsz in Hsep.
+  rewrite Hrd in Hr. subst v. apply Hb in Hin. rewrite zlen_mread in Hin.
+  pose proof (mloadw_range m src Hok) as HL.
+  remember (mloadw m src) as L eqn:EL.
+  assert (HLb : L <= bs) by (clear EL; lia).
+  pose proof (ceil32_mono L bs HLb) as Hm1. pose proof (ceil32_mono bs bd Hle) as Hm2. pose proof (ceil32_ge L) as Hg.
+  destruct (bytes_copy_ok m src dst L ltac:(clear EL; lia)) as [E1 E2]. cbn zeta in E1, E2.
+  exists (mcopy m dst src (32 + ceil32 L)). split; [reflexivity|]. split; [|split].
+  - rewrite Hrdd, E1, <- EL, E2. reflexivity.
+  - now apply mcopy_ok.
+  - intros a Ha. apply mcopy_out; clear EL E1 E2; lia.
+Qed.
+
+Lemma sep_sym_sub src ls dst ld o1 l1 o2 l2 :
+  sep src ls dst ld -> 0 <= o1 -> 0 <= l1 -> o1 + l1 <= ls -> 0 <= o2 -> 0 <= l2 -> o2 + l2 <= ld ->
+  sep (src + o1) l1 (dst + o2) l2.
+Proof. unfold sep. lia. Qed.
+
+Lemma NC_darr s bs : NC s -> NC (TDArr s bs).
+Proof.
+  intros IH td v m src dst Hws Hwd Hc Hin Hr Hok Hsep.
+  destruct td as [| | | | | | | | | |d bd|]; cbn [compat] in Hc; try discriminate.
+  apply andb_prop in Hc as [Hb Hcs]. cbn [wf_ty] in Hws, Hwd.
+  apply andb_prop in Hws as [Hbs Hwss]. apply andb_prop in Hwd as [Hbd Hwdd].
+  pose proof (vmem_nonneg s Hwss) as Hs0. pose proof (vmem_nonneg d Hwdd) as Hd0.
+  rewrite vmem_darr in Hsep. rewrite (vmem_darr d bd) in *.
+  rewrite vyread_darr in Hr. subst v. apply in_type_darr_map in Hin as [Hlen Hall].
+  pose proof (mloadw_range m src Hok) as HL.
+  cbn [norm]. remember (mloadw m src) as L eqn:EL.
+  assert (HLb : 0 <= L <= bs /\ L <= bd /\ L < W256 /\ Z.of_nat (Z.to_nat L) = L) by (clear EL; lia).
+  destruct HLb as (HL1 & HL2 & HL3 & HL4).
+  replace (bd <? L) with false by (clear EL; lia).
+  set (ss := vmem_size s) in *. set (sd := vmem_size d) in *.
+  set (m1 := mstorew m dst L).
+  assert (Hok1 : mem_ok m1) by (apply mstorew_ok; auto).
+  assert (Hm1src : forall x, src <= x < src + (32 + bs * ss) -> m1 x = m x).
+  { intros x Hx. unfold m1. apply mstorew_out. clear EL. unfold sep in Hsep. nia. }
+  (* the element values *)
+  set (vals := fun j : Z => vyread s m (src + 32 + j * ss)).
+  assert (Hvals : forall j, 0 <= j < L -> in_type s (vals j) = true).
+  { intros j Hj. unfold vals. replace j with (Z.of_nat (Z.to_nat j)) by lia. apply Hall. clear EL. lia. }
+  (* common end: reading the destination *)
+  assert (Hfinish : forall m', mloadw m' dst = L ->
+            (forall j, 0 <= j < L -> vyread d m' (dst + 32 + j * sd) = vals j) ->
+            vyread (TDArr d bd) m' dst =
+            VList (map (fun i : nat => vyread s m (src + 32 + Z.of_nat i * vmem_size s)) (seq 0 (Z.to_nat L)))).
+  { intros m' E Hel. rewrite vyread_darr, E. f_equal. apply map_seq_ext. intros i Hi. fold sd ss.
+    apply Hel. clear EL. lia. }
+  destruct (ty_eqb s d && (ss =? sd)) eqn:Efast.
+  - (* bulk copy: same element type *)
+    apply andb_prop in Efast as [Eeq Esz]. apply ty_eqb_eq in Eeq. subst d. fold ss in sd. 
+    assert (Hsd : sd = ss) by reflexivity.
+    exists (mcopy m1 (dst + 32) (src + 32) (L * sd)).
+    assert (HLs : 0 <= L * sd <= bd * sd) by (clear EL; nia).
+    split; [reflexivity|]. split; [|split].
+    + apply Hfinish.
+      * transitivity (mloadw m1 dst). apply mloadw_pt. intros i Hi. apply mcopy_out; clear EL; lia.
+        unfold m1. apply mloadw_mstorew. clear EL. lia.
+      * intros j Hj. apply (NC_by_agree s (vals j) m _ (src + 32 + j * ss) (dst + 32 + j * sd) Hwss (Hvals j Hj) eq_refl).
+        fold ss. intros i Hi. rewrite mcopy_at by (clear EL; nia).
+        rewrite Hm1src by (clear EL; nia). f_equal. clear EL. rewrite Hsd. lia.
+    + now apply mcopy_ok.
+    + intros a Ha. rewrite mcopy_out by (clear EL; nia). unfold m1. apply mstorew_out. clear EL. nia.
+  - (* element-wise *)
+    assert (Hsep' : sep (src + 32) (L * ss) (dst + 32) (L * sd)) by (clear EL; unfold sep in *; nia).
+    destruct (loop_ok s d IH Hwss Hwdd Hcs vals L (src + 32) (dst + 32) Hsep' (Z.to_nat L) 0 m1 ltac:(lia) ltac:(clear EL; lia))
+      as (m' & Hn' & Hr' & Hok' & Hf'); auto.
+    { intros j Hj. split. apply Hvals. clear EL. lia.
+      unfold vals. apply (NC_by_agree s (vyread s m (src + 32 + j * ss)) m m1 (src + 32 + j * ss) (src + 32 + j * ss) Hwss); auto.
+      apply Hvals. clear EL; lia.
+      apply agree_refl_on. intros x Hx. symmetry. apply Hm1src. fold ss in Hx. clear EL. nia. }
+    fold ss sd in Hn'. rewrite Hn'. exists m'. split; [reflexivity|]. split; [|split; [exact Hok'|]].
+    + apply Hfinish.
+      * transitivity (mloadw m1 dst). apply mloadw_pt. intros i Hi. apply Hf'. clear EL. lia.
+        unfold m1. apply mloadw_mstorew. clear EL. lia.
+      * intros j Hj. fold sd in Hr'. apply Hr'. clear EL. lia.
+    + intros a Ha. fold sd in Hf'. rewrite Hf' by (clear EL; nia). unfold m1. apply mstorew_out. clear EL. nia.
+Qed.
+
+Lemma in_type_sarr_map t n (f : nat -> val) :
+  in_type (TSArr t n) (VList (map f (seq 0 (Z.to_nat n)))) = true -> forall i, (i < Z.to_nat n)%nat -> in_type t (f i) = true.
+Proof.
+  intro Hin. cbn [in_type] in Hin. apply andb_prop in Hin as [_ Hall]. rewrite forallb_forall in Hall.
+  intros i Hi. apply Hall. apply in_map_iff. exists i. split; auto. apply in_seq. lia.
+Qed.
+
+Lemma NC_sarr s n : NC s -> NC (TSArr s n).
+Proof.
+  intros IH td v m src dst Hws Hwd Hc Hin Hr Hok Hsep.
+  destruct td as [| | | | | | | | |d k| |]; cbn [compat] in Hc; try discriminate.
+  apply andb_prop in Hc as [Hnk Hcs]. assert (k = n) by lia. subst k. cbn [wf_ty] in Hws, Hwd.
+  apply andb_prop in Hws as [Hn1 Hwss]. apply andb_prop in Hwd as [_ Hwdd].
+  pose proof (vmem_nonneg s Hwss) as Hs0. pose proof (vmem_nonneg d Hwdd) as Hd0.
+  rewrite vmem_sarr in Hsep. rewrite (vmem_sarr d n) in *.
+  rewrite vyread_sarr in Hr. subst v. pose proof (in_type_sarr_map _ _ _ Hin) as Hall.
+  cbn [norm]. set (ss := vmem_size s) in *. set (sd := vmem_size d) in *.
+  set (vals := fun j : Z => vyread s m (src + j * ss)).
+  assert (Hvals : forall j, 0 <= j < n -> in_type s (vals j) = true).
+  { intros j Hj. unfold vals. replace j with (Z.of_nat (Z.to_nat j)) by lia. apply Hall. lia. }
+  assert (Hfinish : forall m', (forall j, 0 <= j < n -> vyread d m' (dst + j * sd) = vals j) ->
+            vyread (TSArr d n) m' dst =
+            VList (map (fun i : nat => vyread s m (src + Z.of_nat i * vmem_size s)) (seq 0 (Z.to_nat n)))).
+  { intros m' Hel. rewrite vyread_sarr. f_equal. apply map_seq_ext. intros i Hi. fold sd ss. apply Hel. lia. }
+  destruct ((ss =? sd) && negb (is_dynamic (TSArr d n))) eqn:Efast.
+  - apply andb_prop in Efast as [Esz Edyn]. cbn [is_dynamic] in Edyn.
+    assert (s = d) by (apply compat_static; auto; now destruct (is_dynamic d)). subst d.
+    assert (Hsd : sd = ss) by reflexivity.
+    exists (mcopy m dst src (n * sd)). split; [reflexivity|]. split; [|split].
+    + apply Hfinish. intros j Hj.
+      apply (NC_by_agree s (vals j) m _ (src + j * ss) (dst + j * sd) Hwss (Hvals j Hj) eq_refl).
+      fold ss. intros i Hi. rewrite mcopy_at by nia. f_equal. rewrite Hsd. lia.
+    + now apply mcopy_ok.
+    + intros a Ha. apply mcopy_out; nia.
+  - destruct (loop_ok s d IH Hwss Hwdd Hcs vals n src dst Hsep (Z.to_nat n) 0 m ltac:(lia) ltac:(lia))
+      as (m' & Hn' & Hr' & Hok' & Hf'); auto.
+    { intros j Hj. split. apply Hvals. lia. reflexivity. }
+    fold ss sd in Hn'. rewrite Hn'. exists m'. split; [reflexivity|]. split; [|split; [exact Hok'|]].
+    + apply Hfinish. intros j Hj. fold sd in Hr'. apply Hr'. lia.
+    + intros a Ha. fold sd in Hf'. apply Hf'. nia.
+Qed.
+
+Definition tsum (ts : list ty) : Z := fold_right (fun t' acc => vmem_size t' + acc) 0 ts.
+Lemma tsum_nonneg ts : forallb wf_ty ts = true -> 0 <= tsum ts.
+Proof.
+  induction ts; cbn [forallb tsum fold_right]; intro H. lia. apply andb_prop in H as [A B].
+  pose proof (vmem_nonneg a A). specialize (IHts B). unfold tsum in IHts. lia.
+Qed.
+Definition read_go (m : mem) := fix go (ts : list ty) (a : Z) : list val :=
+  match ts with [] => [] | t' :: r => vyread t' m a :: go r (a + vmem_size t') end.
+Lemma vyread_tuple ts m a : vyread (TTuple ts) m a = VList (read_go m ts a).
+Proof. reflexivity. Qed.
+Definition compat_go := fix go (ss ds : list ty) : bool :=
+  match ss, ds with [] , [] => true | s :: r, d :: q => compat s d && go r q | _, _ => false end.
+Definition norm_go (src dst : Z) := fix go (ss ds : list ty) (m : mem) (so d_o : Z) : option mem :=
+  match ss, ds with
+  | s :: r, d :: q => match norm s d m (src + so) (dst + d_o) with
+                      | Some m1 => go r q m1 (so + vmem_size s) (d_o + vmem_size d)
+                      | None => None end
+  | _, _ => Some m
+  end.
+
+Lemma tuple_ok ss : Forall NC ss -> forall ds vs m so d_o src dst SL DL,
+  forallb wf_ty ss = true -> forallb wf_ty ds = true -> compat_go ss ds = true ->
+  zip_all (map in_type ss) vs = true -> read_go m ss (src + so) = vs -> mem_ok m ->
+  0 <= so -> 0 <= d_o -> so + tsum ss <= SL -> d_o + tsum ds <= DL -> sep src SL dst DL ->
+  exists m', norm_go src dst ss ds m so d_o = Some m' /\ read_go m' ds (dst + d_o) = vs /\ mem_ok m' /\
+             (forall a, a < dst + d_o \/ dst + d_o + tsum ds <= a -> m' a = m a).
+Proof.
+  induction 1 as [|s ss Hs HF IH]; intros [|d ds] vs m so d_o src dst SL DL Hws Hwd Hc Hin Hr Hok Hso Hdo HSL HDL Hsep;
+    cbn [compat_go] in Hc; try discriminate.
+  - cbn [read_go] in Hr. subst vs. exists m. cbn [norm_go read_go tsum fold_right].
+    split; [reflexivity|]. split; [reflexivity|]. split; [exact Hok|]. intros; reflexivity.
+  - destruct vs as [|v vs]; cbn [map zip_all] in Hin; try discriminate.
+    apply andb_prop in Hc as [Hc1 Hc2]. apply andb_prop in Hin as [Hi1 Hi2].
+    cbn [forallb] in Hws, Hwd. apply andb_prop in Hws as [Hws1 Hws2]. apply andb_prop in Hwd as [Hwd1 Hwd2].
+    cbn [read_go] in Hr. injection Hr as Hr1 Hr2.
+    cbn [tsum fold_right] in HSL, HDL. fold (tsum ss) in HSL. fold (tsum ds) in HDL.
+    pose proof (vmem_nonneg s Hws1) as Hs0. pose proof (vmem_nonneg d Hwd1) as Hd0.
+    pose proof (tsum_nonneg ss Hws2) as Hts. pose proof (tsum_nonneg ds Hwd2) as Htd.
+    assert (Hsep1 : sep (src + so) (vmem_size s) (dst + d_o) (vmem_size d)) by (unfold sep in *; lia).
+    destruct (Hs d v m (src + so) (dst + d_o) Hws1 Hwd1 Hc1 Hi1 Hr1 Hok Hsep1) as (m1 & Hn1 & Hrd1 & Hok1 & Hf1).
+    cbn [norm_go]. rewrite Hn1.
+    assert (Hr2' : read_go m1 ss (src + (so + vmem_size s)) = vs).
+    { rewrite <- Hr2. rewrite Z.add_assoc.
+      apply (tuple_go_ext ss).
+      - apply Forall_forall. intros t0 _. apply vyread_ext.
+      - exact Hws2.
+      - apply agree_refl_on. intros x Hx. symmetry. apply Hf1. fold (tsum ss) in Hx. unfold sep in Hsep. lia.
+      - fold (read_go m). rewrite Hr2. exact Hi2. }
+    destruct (IH ds vs m1 (so + vmem_size s) (d_o + vmem_size d) src dst SL DL Hws2 Hwd2 Hc2 Hi2 Hr2' Hok1
+                 ltac:(lia) ltac:(lia) ltac:(lia) ltac:(lia) Hsep) as (m' & Hn' & Hr' & Hok' & Hf').
+    exists m'. split; [exact Hn'|]. split; [|split; [exact Hok'|]].
+    + cbn [read_go]. f_equal.
+      * rewrite <- Hrd1. apply (vyread_ext d Hwd1 m1 m'). 2:{ rewrite Hrd1. apply (in_type_widen s d); auto. }
+        apply agree_refl_on. intros x Hx. symmetry. apply Hf'. lia.
+      * rewrite Z.add_assoc in Hr'. exact Hr'.
+    + intros a Ha. cbn [tsum fold_right] in Ha. fold (tsum ds) in Ha. rewrite Hf' by lia. apply Hf1. lia.
+Qed.
+
+Lemma NC_tuple ss : Forall NC ss -> NC (TTuple ss).
+Proof.
+  intros HF td v m src dst Hws Hwd Hc Hin Hr Hok Hsep.
+  destruct td as [| | | | | | | | | | |ds]; cbn [compat] in Hc; try discriminate.
+  rewrite vyread_tuple in Hr. subst v. cbn [in_type] in Hin. cbn [wf_ty] in Hws, Hwd.
+  change (vmem_size (TTuple ss)) with (tsum ss) in Hsep. change (vmem_size (TTuple ds)) with (tsum ds) in *.
+  destruct (tuple_ok ss HF ds _ m 0 0 src dst (tsum ss) (tsum ds) Hws Hwd Hc Hin) as (m' & Hn' & Hr' & Hok' & Hf'); auto; try lia.
+  { now rewrite Z.add_0_r. }
+  exists m'. split. exact Hn'. split. rewrite vyread_tuple. rewrite Z.add_0_r in Hr'. now rewrite Hr'.
+  split; auto. intros a Ha. apply Hf'. lia.
+Qed.
+
+Theorem norm_correct : forall ts, NC ts.
+Proof.
+  induction ts using ty_ind'.
+  1-4: (apply NC_word; [reflexivity | reflexivity | reflexivity]).
+  - apply NC_word; [reflexivity | reflexivity | reflexivity].
+  - apply NC_word; [reflexivity | reflexivity | reflexivity].
+  - apply NC_word; [reflexivity | reflexivity | reflexivity].
+  - apply (NC_bytes_like (TBytes b) ltac:(reflexivity) b eq_refl).
+    + intros d Hd. cbn [in_type] in Hd. lia.
+    + intros td Hc. destruct td; cbn [compat] in Hc; try discriminate. exists bound. repeat split; try reflexivity. lia.
+  - apply (NC_bytes_like (TString b) ltac:(reflexivity) b eq_refl).
+    + intros d Hd. cbn [in_type] in Hd. lia.
+    + intros td Hc. destruct td; cbn [compat] in Hc; try discriminate. exists bound. repeat split; try reflexivity. lia.
+  - now apply NC_sarr.
+  - now apply NC_darr.
+  - now apply NC_tuple.
+Qed.
+
+(* ---------- ctx.store_memory: plain copy when the layouts coincide, normalisation otherwise ---------- *)
+Theorem store_memory_correct : forall ts td v m src dst,
+  wf_ty ts = true -> wf_ty td = true -> compat ts td = true -> in_type ts v = true ->
+  vyread ts m src = v -> mem_ok m -> sep src (vmem_size ts) dst (vmem_size td) ->
+  exists m', store_memory ts td m src dst = Some m' /\ vyread td m' dst = v /\ mem_ok m' /\
+             (forall a, a < dst \/ dst + vmem_size td <= a -> m' a = m a).
+Proof.
+  intros ts td v m src dst Hws Hwd Hc Hin Hr Hok Hsep.
+  assert (Hn := norm_correct ts td v m src dst Hws Hwd Hc Hin Hr Hok Hsep).
+  unfold store_memory. destruct td; try exact Hn;
+    try (destruct (ty_eqb ts _) eqn:E; [|exact Hn]; apply ty_eqb_eq in E; subst ts).
+  all: try (destruct ts; cbn [compat] in Hc; try discriminate; exact Hn).
+  all: pose proof (vmem_nonneg _ Hwd) as H0;
+       eexists; split; [reflexivity|]; split; [|split; [now apply mcopy_ok | intros a Ha; apply mcopy_out; lia]];
+       apply (NC_by_agree _ v m _ src dst Hwd Hin Hr); intros i Hi; rewrite mcopy_at by lia; f_equal; lia.
 Qed.
